@@ -238,14 +238,13 @@ def parseStep (s : String) : Option Step :=
 
 def flag (st : Option (State String)) : String := if st.isSome then "S" else "N"
 
-def runModel : Session String → List Step → List String
-  | _, [] => []
-  | s, .newSession :: rest => "new" :: runModel { s with fsState := none } rest
-  | s, .diag :: rest =>
+def stepModel (s : Session String) : Step → Session String × String
+  | .newSession => ({ s with fsState := none }, "new")
+  | .diag =>
     let (s', _) := compile Gen.FsFacts.createRoot Gen.FsFacts.resetOnIoError hash s none none
     let same := if treeStr s.fs == treeStr s'.fs then "same" else "changed"
-    s!"diag:{same}:{flag s.fsState}{flag s'.fsState}" :: runModel s' rest
-  | s, .compile arts fault :: rest =>
+    (s', s!"diag:{same}:{flag s.fsState}{flag s'.fsState}")
+  | .compile arts fault =>
     let (ops, _) := getOps Gen.FsFacts.createRoot hash arts s.fsState
     let (s', res) := compile Gen.FsFacts.createRoot Gen.FsFacts.resetOnIoError hash s (some arts) fault
     let out := match res with
@@ -253,6 +252,12 @@ def runModel : Session String → List Step → List String
       | .ioError => errKind arts s.fs ops fault
       | .panic => "panic"
       | .diagnostics => "diag"
+    (s', out)
+
+def runModel : Session String → List Step → List String
+  | _, [] => []
+  | s, st :: rest =>
+    let (s', out) := stepModel s st
     out :: runModel s' rest
 
 structure OState where
@@ -306,6 +311,70 @@ def session (args impl : List String) : String :=
         model ++ "\t" ++ oracle judged {} steps impl
   | _ => "bad-request\tok"
 
+/-! ### fs.real: sessions of the real `compile()`; the artifact lists come with the answer -/
+
+inductive RItem
+  | echo (s : String)                    -- printed as is
+  | reset (s : String)                   -- printed as is; the in-memory state is gone
+  | step (st : Step) (implOutcome : String)
+
+def realItems : List String → List String → Option Nat → Option (List RItem)
+  | [], [], _ => some []
+  | [], _ :: _, _ => none
+  | tok :: ts, fs, fault =>
+    if tok == "N" then
+      match fs with
+      | "new" :: fs' => (realItems ts fs' fault).map (.reset "new" :: ·)
+      | _ => none
+    else if tok.startsWith "V" then
+      match fs with
+      | "V:ok" :: fs' => (realItems ts fs' fault).map (.echo "V:ok" :: ·)
+      | "V:reset" :: fs' => (realItems ts fs' fault).map (.reset "V:reset" :: ·)
+      | _ => none
+    else if tok.startsWith "F" then realItems ts fs ((tok.drop 1).toString.toNat?)
+    else if tok == "C" then
+      match fs with
+      | a :: o :: fs' =>
+        if a == "A:none" then (realItems ts fs' none).map (fun r => .echo a :: .step .diag o :: r)
+        else if a == "A:unknown" then (realItems ts fs' none).map (fun r => .echo a :: .reset o :: r)
+        else if a.startsWith "A:" then
+          match parseArts (a.drop 2).toString with
+          | some arts => (realItems ts fs' none).map (fun r => .echo a :: .step (.compile arts fault) o :: r)
+          | none => none
+        else none
+      | _ => none
+    else none
+
+def runModelR : Session String → List RItem → List String
+  | _, [] => []
+  | s, .echo x :: rest => x :: runModelR s rest
+  | s, .reset x :: rest => x :: runModelR { s with fsState := none } rest
+  | s, .step st _ :: rest =>
+    let (s', out) := stepModel s st
+    out :: runModelR s' rest
+
+def oracleSteps : List RItem → List Step × List String
+  | [] => ([], [])
+  | .echo _ :: rest => oracleSteps rest
+  | .reset x :: rest =>
+    let (a, b) := oracleSteps rest
+    (.newSession :: a, (if x == "panic" then "panic!" else "new") :: b)
+  | .step st o :: rest =>
+    let (a, b) := oracleSteps rest
+    (st :: a, o :: b)
+
+def real (args impl : List String) : String :=
+  match args with
+  | _seed :: toks =>
+    match realItems toks impl none with
+    | none => (if impl == ["bad-request"] || impl == ["panic"] then " ".intercalate impl else "unparsable") ++ "\tbad:unparsable-impl-answer"
+    | some items =>
+      let model := " ".intercalate (runModelR { fsState := none, fs := [] } items)
+      let (steps, answers) := oracleSteps items
+      let verdict := if answers.contains "panic!" then "bad:panic" else oracle (sane (allArts steps)) {} steps answers
+      model ++ "\t" ++ verdict
+  | _ => "bad-request\tok"
+
 end FsDrv
 
 def handle (fs : List String) : String :=
@@ -314,6 +383,7 @@ def handle (fs : List String) : String :=
   | "fs.plan" :: args => FsDrv.plan args impl
   | "fs.apply" :: args => FsDrv.apply args impl
   | "fs.session" :: args => FsDrv.session args impl
+  | "fs.real" :: args => FsDrv.real args impl
   | _ => "bad-request\tok"
 
 def main : IO Unit := runDriver handle
